@@ -502,6 +502,12 @@ class Gen:
                     out.append(f"{pad}{f.name}({args})")
             elif c < 0.92 and loop in ("while", "for") or (c < 0.92 and loop == "forlist" and self.f["for_list_break"]):
                 kw = self.r.choice(["break", "continue"])
+                if self.r.random() < 0.12:
+                    # a loop that is compiled away (constant-false test) right before: the break / continue below still
+                    # belongs to the enclosing loop
+                    out.append(f"{pad}while {self.r.choice(['False', '0'])}:")
+                    out.append(f"{pad}    {self.r.choice(DEVS[:6])}.Setting = 1")
+                    self.used.add("dead_while_before_exit")
                 if kw == "continue" and loop == "for" and not self.f["for_continue"]:
                     kw = "break"
                 if kw == "break" and ifd > 0 and not self.f["break_nested_if"]:
